@@ -2768,6 +2768,50 @@ func c07Predicate(w *World, r *Result, rule string) {
 		if fn.Name() != "Public" || fn.Signature.Recv() == nil || len(fn.Blocks) == 0 {
 			continue
 		}
+		// visibility is a stored fact of the definition, decided once from the name as written:
+		// the accessor hands that fact out and computes nothing (the stored name carries the
+		// prefix of its file and is not the name that was written)
+		if fn.Synthetic == "" {
+			key := "public:accessor:" + FuncName(fn)
+			readsEmittedName := false
+			if !pureAccessorFn(fn) {
+				// which fields it looks at, and which field the emitted name (Name()) is
+				nameField := -1
+				for _, f2 := range fns {
+					if f2.Name() == "Name" && f2.Signature.Recv() != nil && types.Identical(f2.Signature.Recv().Type(), fn.Signature.Recv().Type()) && len(f2.Blocks) == 1 {
+						for _, ins := range f2.Blocks[0].Instrs {
+							switch y := ins.(type) {
+							case *ssa.Field:
+								nameField = y.Field
+							case *ssa.FieldAddr:
+								nameField = y.Field
+							}
+						}
+					}
+				}
+				for _, b := range fn.Blocks {
+					for _, ins := range b.Instrs {
+						switch y := ins.(type) {
+						case *ssa.Field:
+							if y.Field == nameField {
+								readsEmittedName = true
+							}
+						case *ssa.FieldAddr:
+							if y.Field == nameField {
+								readsEmittedName = true
+							}
+						}
+					}
+				}
+			}
+			if pureAccessorFn(fn) {
+				r.Ok(rule, key, w.Pos(fn.Pos()), "hands out the stored visibility flag")
+			} else if !readsEmittedName {
+				r.Ok(rule, key, w.Pos(fn.Pos()), "computed from a field other than the emitted name")
+			} else {
+				r.Bad(rule, key, w.Pos(fn.Pos()), FuncName(fn)+" computes the visibility when asked instead of handing out a stored flag: what it can look at then is the stored (prefixed) name, not the name as it was written")
+			}
+		}
 		for _, b := range fn.Blocks {
 			ret, ok := b.Instrs[len(b.Instrs)-1].(*ssa.Return)
 			if !ok || len(ret.Results) != 1 {
